@@ -228,7 +228,17 @@ def single_assignments(fnode):
         if count[k] == 1:
             return True
         vs = allvals.get(k, [])
-        return len(vs) == count[k] and all(path(v) for v in vs) and len({ast.dump(v) for v in vs}) == 1
+        return len(vs) == count[k] and all(path(v) or pure(v) for v in vs) and len({ast.dump(v) for v in vs}) == 1
+
+    def pure(v):
+        # arithmetic over paths and constants: the same value wherever it is (re)computed, as long as the paths are not rebound
+        if isinstance(v, ast.Constant) or path(v):
+            return True
+        if isinstance(v, ast.BinOp):
+            return pure(v.left) and pure(v.right)
+        if isinstance(v, ast.UnaryOp):
+            return pure(v.operand)
+        return False
     # a name bound to a path (an alias of an existing object) may be mutated through: it is still that object
     out = {k: v for k, v in val.items() if once(k) and k not in params and (k not in mutated or path(v)) and not container(v)}
     # a name bound once in each arm of one if/else (and nowhere else) is a conditional expression: `if c: p = a  else: p = b`
